@@ -1,6 +1,6 @@
 (* Non-vacuity: concrete, non-trivial values meeting the hypotheses of every theorem. *)
 From Coq Require Import String.
-From V Require Import Common.Base C15.Names C15.Renamer C15.Spec C15.NamesProofs C15.MinifyProofs C15.ResolveProofs C15.ScopeBuild C15.Harness.
+From V Require Import Common.Base C15.Names C15.Renamer C15.Spec C15.NamesProofs C15.MinifyProofs C15.ResolveProofs C15.ScopeBuild C15.ScopeProg C15.Harness.
 
 Example minname_ex : map (NumberToMinifiedName default_minifier) [0; 1; 53; 54; 55; 54 + 54 * 64; 1000000]
   = [[97]; [98]; [36]; [97;97]; [98;97]; [97;97;97]; [67;118;71;100]].
@@ -107,4 +107,20 @@ Example build_sk_ex :
   Scope [0; 1; 2]%nat [] None false
     [Scope [3; 4]%nat [] None false
        [Scope [5; 3; 4]%nat [] None false [Scope [6; 5]%nat [] None false []]]].
+Proof. vm_compute. reflexivity. Qed.
+
+(* var hoisted out of a block and merged with the catch parameter; a function with a parameter
+   re-declared by var; a free reference *)
+Definition prog_ex : list stmt :=
+  [STry [SVar (nm "v")] (Some (nm "e")) [SBlock [SVar (nm "e")]; SRef (nm "g")];
+   SFunc (nm "f") [nm "p"] [SVar (nm "p"); SBlock [SLet (nm "l"); SVar (nm "w")]; SRef (nm "v")]].
+Example parse_forest_ex :
+  fst (parse_forest prog_ex) =
+  Scope [0; 1; 2; 3]%nat [] None false            (* v e f g(free, pinned) *)
+    [Scope [0]%nat [] None false [];               (* try block: var v *)
+     Scope [1]%nat [] None false                   (* catch (e): the hoisted var e *)
+       [Scope [] [] None false [Scope [1]%nat [] None false []]];
+     Scope [4; 5]%nat [] None false                (* f's arguments scope: p arguments *)
+       [Scope [6; 4; 5]%nat [] None false          (* body: w, p, arguments *)
+          [Scope [7; 6]%nat [] None false []]]].   (* block: l, w *)
 Proof. vm_compute. reflexivity. Qed.
